@@ -354,7 +354,7 @@ def to_source(spec, form_name="a", with_prelude=True) -> str:
             else:
                 raise ValueError(tr)
     elif spec.get("kind") == "expr":
-        L.append(f"{form_name}_expr = {_src(spec['e'])}")
+        L.append(f"{form_name}_expr = ufl.as_ufl({_src(spec['e'])})")
         tr = spec.get("transform")
         if tr:
             if tr[0] == "derivative":  # Gateaux derivative w.r.t. coefficient -> needs an argument
@@ -407,7 +407,7 @@ def typing_namespace(spec) -> dict:
 
 
 def tree_shape(tree, ns) -> tuple:
-    return tuple(eval(_src(tree), ns).ufl_shape)
+    return tuple(ns["ufl"].as_ufl(eval(_src(tree), ns)).ufl_shape)
 
 
 def tree_size(t) -> int:
